@@ -730,29 +730,29 @@ theorem mem_takeWhile {α} (p : α → Bool) (l : List α) (x : α) (h : x ∈ l
       · exact ih h'
     · rw [if_neg ha] at h; simp at h
 
-theorem quotedStringRs_eq : ∀ (fuel : Nat) (txt : Str), txt.length < fuel →
-    quotedStringRs fuel txt = some (quotedString txt) := by
+theorem quotedLoop_eq : ∀ (fuel : Nat) (w txt : Str), txt.length < fuel →
+    quotedLoop fuel w txt = some (w ++ quotedString txt) := by
   intro fuel
   induction fuel with
-  | zero => intro txt h; omega
+  | zero => intro w txt h; omega
   | succ f ih =>
-    intro txt hlen
+    intro w txt hlen
     have hsplit := List.takeWhile_append_dropWhile (p := fun c => !isCut c) (l := txt)
     have hpre : quotedString (txt.takeWhile (fun c => !isCut c)) = txt.takeWhile (fun c => !isCut c) :=
       quotedString_noncut _ (fun c hc => mem_takeWhile _ _ c hc)
-    unfold quotedStringRs
+    unfold quotedLoop
     cases hd : txt.dropWhile (fun c => !isCut c) with
     | nil =>
       rw [hd, List.append_nil] at hsplit
       rw [hsplit] at hpre
-      simp only [hsplit, hpre]
+      simp [hsplit, hpre]
     | cons c tl =>
       have hc : isCut c = true := by simpa using dropWhile_head _ _ _ _ hd
       rw [hd] at hsplit
       have hq : quotedString txt = txt.takeWhile (fun c => !isCut c) ++ escChar c ++ quotedString tl := by
         conv => lhs; rw [← hsplit]
         rw [quotedString_append, hpre, quotedString_cons, List.append_assoc]
-      simp only [escArm_of_cut c hc]
+      simp only [escArm_of_cut c hc, Option.map_some, List.length_cons, List.drop_succ_cons, List.drop_zero]
       by_cases htl : tl = []
       · subst htl
         rw [hq]; simp [quotedString]
@@ -761,7 +761,11 @@ theorem quotedStringRs_eq : ∀ (fuel : Nat) (txt : Str), txt.length < fuel →
             conv => lhs; rw [← hsplit]
             simp
           omega
-        have : tl.isEmpty = false := by cases tl with | nil => exact absurd rfl htl | cons _ _ => rfl
-        simp [this, ih tl hl, hq]
+        have hpos : ¬ (tl.length + 1 ≤ 1) := by
+          cases tl with
+          | nil => exact absurd rfl htl
+          | cons _ _ => simp
+        rw [if_neg hpos, ih _ tl hl, hq]
+        simp [List.append_assoc]
 
 end SophiaProofs.NTL
